@@ -1,6 +1,7 @@
 (* C09 — Every accepted call to an embedded contract completes or refunds.
    Only statements; each is closed by a lemma proved in theories/. *)
 From ZV Require Import Prelude GoSem Abi AbiProofs VmReceive VmReceiveProofs Emb EmbProofs.
+From ZV Require Import VmSource.
 From ZV.gen Require Import Consts.
 Open Scope Z_scope.
 
@@ -162,3 +163,39 @@ Example C09_fuse_applies :
   | _ => False
   end.
 Proof. vm_compute. repeat split. Qed.
+
+(* ---- the refund path proved DIRECTLY about the code: VM.rollbackEmbedded (vm/vm.go) translated whole from /repo's source
+   by go2coq on every run (gen/PureVm.v). Inputs: the error being rolled back, the verdict of GetAccountBlockByHash and
+   the send block it returns (Amount, Address, TokenStandard), the verdict of vm.applySend on the refund, the two error
+   results of finalizeEmbedded. Outputs: (methodErr, err, Reset called, amount handed to AddBalance, descendants handed
+   to finalizeEmbedded as (ToAddress, Amount, TokenStandard), execution error handed to it). See theories/VmSource.v. *)
+Theorem C09_source_rollback_refunds_exactly : forall me g amt from zts asv f1 f2 r1 r2 eR eA eB eE,
+  ZV.gen.PureVm.rollbackEmbedded me g amt from zts asv f1 f2 = GoSem.Ok (r1, r2, eR, eA, eB, eE) ->
+  g = 0 /\ eR = Some 1 /\ eA = Some amt /\
+  ((0 < amt /\ asv = 0 /\ eB = Some [(from, amt, zts)] /\ eE = Some me /\ r1 = f1 /\ r2 = f2) \/
+   (0 < amt /\ asv <> 0 /\ eB = None /\ eE = None /\ r1 = 0 /\ r2 = asv) \/
+   (amt <= 0 /\ eB = Some [] /\ eE = Some me /\ r1 = f1 /\ r2 = f2)).
+Proof. exact rollback_refunds_exactly. Qed.
+Theorem C09_source_rollback_lookup_failure_panics : forall me g amt from zts asv f1 f2,
+  g <> 0 -> ZV.gen.PureVm.rollbackEmbedded me g amt from zts asv f1 f2 = GoSem.Panic.
+Proof. exact rollback_lookup_failure_panics. Qed.
+(* the rollback of the hand model (the one the theorems over all queues above are about) IS the translated source *)
+Theorem C09_rollback_is_the_source : forall (cstate : Type) (dest_check : dsend -> option Z) (num : bytes -> Z)
+    (a : cacct cstate) (s : send) code f1 f2,
+  match rollback cstate dest_check (Some a) s code with
+  | RRefunded a2 ds c =>
+      c = code /\
+      ZV.gen.PureVm.rollbackEmbedded code 0 (s_amount s) (num (s_from s)) (num (s_zts s)) 0 f1 f2 =
+      GoSem.Ok (f1, f2, Some 1, Some (s_amount s), Some (map (enc_d num) ds), Some code)
+  | RInternal c =>
+      c <> 0 ->
+      ZV.gen.PureVm.rollbackEmbedded code 0 (s_amount s) (num (s_from s)) (num (s_zts s)) c f1 f2 =
+      GoSem.Ok (0, c, Some 1, Some (s_amount s), None, None)
+  | _ => True
+  end.
+Proof. exact rollback_is_source. Qed.
+Example C09_source_rollback_examples :
+  ZV.gen.PureVm.rollbackEmbedded 7 0 50 11 3 0 0 0 = GoSem.Ok (0, 0, Some 1, Some 50, Some [(11, 50, 3)], Some 7) /\
+  ZV.gen.PureVm.rollbackEmbedded 7 0 0 11 3 0 0 0 = GoSem.Ok (0, 0, Some 1, Some 0, Some [], Some 7) /\
+  ZV.gen.PureVm.rollbackEmbedded 7 0 50 11 3 9 0 0 = GoSem.Ok (0, 9, Some 1, Some 50, None, None).
+Proof. exact rollback_examples. Qed.
